@@ -17,7 +17,8 @@
 EXTENDS Integers, Sequences, TLC, Json, IOUtils
 
 Data == JsonDeserialize(IOEnv.IR_DATA)
-Models == {"2Y0A02", "2Y0A21", "2Y0A41"}
+\* the three drivers, each on an on-board and on an MXP analog channel, and the 2Y0A41 under its legacy public name
+Models == {"2Y0A02", "2Y0A21", "2Y0A41", "2Y0A02@hi", "2Y0A21@hi", "2Y0A41@hi", "2Y0A41@legacy"}
 MinD(m) == Data.range[m][1]
 MaxD(m) == Data.range[m][2]
 Law(m, k) == Data.law[m][k + 1]          \* code k in 0..4095 (code 0: the voltage floor)
